@@ -76,8 +76,13 @@ def step (s : Option St) (toks : List String) : Option St × String :=
         (some s', a)
       | "ain" =>
         let amount := argI toks "amount" 1
+        -- feeu=<units>: an explicit fee; rem=<wei>: the account input (and the confidential output) carry a fraction of a commitment
+        -- unit: the semantic check demands an input of at least one unit and a whole number of units
+        let gas := if argI toks "feeu" (-1) ≥ 0 then argI toks "feeu" 0 / 10 else calGas amount
+        let input := amount + feeOfGas gas
+        let broken := if argI toks "rem" 0 != 0 || input < 1 then some "money" else none
         let (s', a) := submit s { kind := .ain, from_ := (argI toks "from" 0).toNat, to := (argI toks "w" 0).toNat, amount := amount,
-                                  nonce := (argI toks "nonce" 0).toNat, gas := calGas amount }
+                                  nonce := (argI toks "nonce" 0).toNat, gas := gas, broken := broken }
         (some s', a)
       | "uu" | "ua" =>
         let w := (argI toks "w" 0).toNat
@@ -176,6 +181,9 @@ structure DR where
   /-- instances a committed SELFDESTRUCT removed: their address has no code any more, so the basic check judges a transaction
   addressed to them by the plain-transfer rule (gas limit = exactly the transfer gas) BEFORE any state check -/
   dead : List Nat := []
+  /-- account→confidential transactions whose fee does not cover the value-proportional gas of what they bring in as `CheckStoreState`
+  computes it inside a block (the amount in wei, rounded UP to the fee step): a block holding one is execution-invalid -/
+  feelow : List Nat := []
 
 /-- book the value of the successful value-carrying calls among the transactions `ids` (with receipt statuses `sts`) -/
 def bookCalls (vcalls : List (Nat × Nat × Int)) (ids : List Nat) (sts : List Bool) (s : St) : St :=
@@ -192,12 +200,12 @@ def alignSts (sts : List (List Bool)) (s' : St) : List (List Bool) :=
   if s'.blocks.length > sts.length then sts ++ [List.replicate ((s'.blocks.getLast?.getD []).length) true] else sts
 
 
-/-- book the movements of the successful contract transactions among `ids` (receipt statuses `sts`) -/
+/-- book the movements of the successful contract transactions among `ids` (receipt statuses `sts`), then the end of the block -/
 def bookEffs (effs : List (Nat × List Prim)) (ids : List Nat) (sts : List Bool) (sx : St × XS) : St × XS :=
-  (ids.zipIdx).foldl (fun acc (id, i) =>
+  applyBlock sx ((ids.zipIdx).filterMap (fun (id, i) =>
     match effs.find? (fun c => c.1 == id) with
-    | some (_, ps) => if sts.getD i true then applyPrims acc ps else acc
-    | none => acc) sx
+    | some (_, ps) => if sts.getD i true then some ps else none
+    | none => none))
 
 def intrinsicOf (kind : String) : Int :=
   match kind with
@@ -270,7 +278,7 @@ def contractOp (d : DR) (toks : List String) : Option (DR × String) :=
       let ps : List Prim :=
         match argI toks "m" 0 with
         | 1 | 3 => [.move false src dst (some v), .move false dst t (some v)]
-        | 2 => if t == dst then [.move false src dst (some v), .burn dst] else [.move false src dst (some v), .move false dst t none]
+        | 2 => if t == dst then [.move false src dst (some v), .burn dst, .kill dst] else [.move false src dst (some v), .move false dst t none, .kill dst]
         | 4 => [.move tok src dst (some v), .move tok dst t (some v)]
         | 7 => [.move false src dst (some v), .move false dst t (some (v / 2))]
         | 8 => [.move false src dst (some v), .move false dst t none]
@@ -308,7 +316,7 @@ def contractOp (d : DR) (toks : List String) : Option (DR × String) :=
 
 /-- after a committed block: book the contract movements, remember where the block started -/
 def commitX (d : DR) (before : St) (ids : List Nat) (sts : List Bool) (s' : St) : DR :=
-  let x0 := { d.x with rx := d.x.rx.map (fun _ => 0) }
+  let x0 := { d.x with rx := d.x.rx.map (fun _ => 0), killed := [] }
   let (s'', x') := bookEffs d.effs ids sts (s', x0)
   -- a SELFDESTRUCT that the dry run saw succeed (it has movements booked) and that this block executed removes its instance
   let killed := (ids.zipIdx).filterMap (fun (id, i) =>
@@ -324,6 +332,7 @@ def stepR (d : Option DR) (toks : List String) : Option DR × String :=
   match d, toks with
   | some d, "forceblock" :: _ =>
     let ids := ((arg? toks "ids").getD "").splitOn "," |>.filterMap String.toNat? |>.filter (· < d.s.txs.length)
+    if ids.any (fun i => d.feelow.contains i) then (some d, "propose=panic") else
     let (s', r, sts) := forceBlockR d.s ids
     if r == "ok" then
       -- the stand-in mempool rechecks what is still pending against the fresh speculative state (what mempool.Update does
@@ -364,7 +373,16 @@ def stepR (d : Option DR) (toks : List String) : Option DR × String :=
       let d0 : DR := match toks with
         | "chain" :: _ => { s := s'' }
         | _ => (d.getD { s := s'' })
-      let d1 : DR := { d0 with s := s'', sts := alignSts ((d.map (·.sts)).getD []) s', vcalls := vc }
+      -- in-block fee rule of an account→confidential transaction (CheckStoreState): needed = the transfer gas of (input − fee) in wei
+      let fl := match toks with
+        | "ain" :: _ =>
+          let amount := argI toks "amount" 1
+          let gas := if argI toks "feeu" (-1) ≥ 0 then argI toks "feeu" 0 / 10 else calGas amount
+          let up : Int := if argI toks "rem" 0 > 0 then 1 else 0
+          let needed : Int := if amount + up > 0 then calGas (amount + up) else 0
+          if needed > gas && (a.splitOn " admit=").length == 2 then d0.feelow ++ [s'.txs.length - 1] else d0.feelow
+        | _ => d0.feelow
+      let d1 : DR := { d0 with s := s'', sts := alignSts ((d.map (·.sts)).getD []) s', vcalls := vc, feelow := fl }
       let d2 := if s'.blocks.length > old then commitX d1 ((d.map (·.s)).getD s') (s'.blocks.getLast?.getD []) [] s'' else d1
       (some d2, a)
 
